@@ -30,6 +30,18 @@ func countHeaders(b []byte) int { return bytes.Count(b, []byte("Frame length "))
 // appStream draws a byte stream for the application-level properties: clean
 // (ground truth known to the generator) or noisy (reference = sequential framing).
 func appStream(c *hx.Ctx, o *hx.Outcome, minFrames int) (segs []gnss.Segment, wire []byte, clean bool) {
+	bulkOneIn := 150
+	if c.Thorough() {
+		bulkOneIn = 40
+	}
+	if c.T.SBool(1, bulkOneIn) {
+		// state that has to build up: hundreds or thousands of tiny messages
+		n := []int{140, 300, 700, 4200, 8400}[c.T.S(5)]
+		segs = gnss.GenBulk(c.T, n)
+		o.Probe("bulk-stream")
+		o.Probe(fmt.Sprintf("bulk-stream-%d-messages", n))
+		return segs, gnss.Concat(segs), true
+	}
 	if c.T.SBool(1, 2) {
 		segs = genCleanStream(c, o, minFrames)
 		return segs, gnss.Concat(segs), true
@@ -172,7 +184,7 @@ func C10(entry EntryFunc) func(*hx.Ctx) *hx.Outcome {
 		s := c.NewSim()
 		s.ChooseStrategy()
 		s.SetStarveKey([]string{"main.go:1", "main.go", "file_handler", "handler.go"}[t.D(4)])
-		s.Budget = 300*(len(wire)+32) + 30000
+		s.Budget = 300*(len(wire)+32) + 30000 + 40*nMsgs
 		returned := false
 		atReturn := -1
 		verdict := s.Run(func() {
